@@ -431,6 +431,40 @@ def check(tier, seed):
     _funcs += [("%s.%s" % (m_.__name__.split(".")[-1], n_), f_) for m_ in (_tb, _sfa) for n_, f_ in vars(m_).items()
                if _inspect.isfunction(f_) and f_.__module__ == m_.__name__]
     aliascheck.account(run, aliascheck.obligations(_funcs, "extend", "extending a schema changes its source, which is still in use"))
+    # --- derived state of Schema: every attribute a method fills on demand (`self.X[k] = v` outside __init__ and the rebuild helper, i.e. a memo over the type map) is
+    # assigned afresh by `_invalidate_and_rebuild_caches`, the helper every in-place change of types / directives ends with (that it does is a C13 obligation) -------------
+    import ast as _ast_, textwrap as _tw
+    from py_gql.schema.schema import Schema as _Schema
+    _cls = _ast_.parse(_tw.dedent(_inspect.getsource(_Schema))).body[0]
+    _methods = {m.name: m for m in _cls.body if isinstance(m, (_ast_.FunctionDef, _ast_.AsyncFunctionDef))}
+    _helper = _methods.get("_invalidate_and_rebuild_caches")
+    if _helper is not None:
+        _reset = {t.attr for n_ in _ast_.walk(_helper) if isinstance(n_, (_ast_.Assign, _ast_.AnnAssign)) for t in (n_.targets if isinstance(n_, _ast_.Assign) else [n_.target])
+                  if isinstance(t, _ast_.Attribute) and isinstance(t.value, _ast_.Name) and t.value.id == "self"}
+        _memos = {}
+        for mname, m in _methods.items():
+            if mname in ("__init__", "_invalidate_and_rebuild_caches", "_replace_types_and_directives", "_rebuild_caches"):
+                continue
+            for n_ in _ast_.walk(m):
+                tgts = n_.targets if isinstance(n_, _ast_.Assign) else []
+                for t in tgts:
+                    if isinstance(t, _ast_.Subscript) and isinstance(t.value, _ast_.Attribute) and isinstance(t.value.value, _ast_.Name) and t.value.value.id == "self":
+                        _memos.setdefault(t.value.attr, mname)
+                if isinstance(n_, _ast_.Call) and isinstance(n_.func, _ast_.Attribute) and n_.func.attr in ("setdefault", "update") and isinstance(n_.func.value, _ast_.Attribute) \
+                        and isinstance(n_.func.value.value, _ast_.Name) and n_.func.value.value.id == "self":
+                    _memos.setdefault(n_.func.value.attr, mname)
+        for attr, mname in sorted(_memos.items()):
+            if attr in ("types", "directives", "implementations"):
+                continue        # primary state, not derived
+            run.cov["obligations"] += 1
+            run.cov["backends"]["syntactic-path enumeration"] = run.cov["backends"].get("syntactic-path enumeration", 0) + 1
+            if attr in _reset:
+                run.cov["discharged"] += 1
+            else:
+                run.violation("Schema.%s:reset-by-_invalidate_and_rebuild_caches" % attr, "Schema.%s fills self.%s on demand, but _invalidate_and_rebuild_caches does not assign it afresh: after an "
+                              "in-place change of the type map it keeps answering with the objects of before (removed / replaced types stay reachable)" % (mname, attr),
+                              {"obligation": "Schema.%s" % attr}, False, extra={"obligation": "Schema.%s:reset" % attr, "solver": "syntactic-path enumeration", "solver_status": "refuted"})
+        run.cov["functions_under_contract"].append("Schema (derived state reset by _invalidate_and_rebuild_caches: %s)" % ", ".join(sorted(_memos)))
     # --- attribute-preservation obligations on every rebuild site (syntactic, per function, for all inputs) -------------------
     from vf import ctorcheck
     funcs = ctorcheck.rebuild_functions()
